@@ -45,6 +45,10 @@ func planOf(kv ...string) Plan {
 
 func c06Cases(tier string) []SchedCase {
 	var out []SchedCase
+	two := 2
+	if tier == "thorough" {
+		two = 3
+	}
 	add := func(q string, p Plan) {
 		out = append(out, SchedCase{Case: Case{Op: Op{Text: q}, Plan: p, Yield: true}, Name: q + " | " + p.Key()})
 	}
@@ -83,7 +87,7 @@ func c06Cases(tier string) []SchedCase {
 	add(`{one{a:only b:only}}`, planOf("one.a", "error", "one.b", "error"))
 	add(`{one{a:only b:only c:only}}`, planOf("one.a", "error", "one.c", "panic"))
 	// every resolver registers a response extension
-	out = append(out, SchedCase{Case: Case{Op: Op{Text: `{t{name req} ts{name}}`}, Yield: true, RegisterExt: true}, Name: "{t{name req} ts{name}} | extensions registered by every resolver"})
+	out = append(out, SchedCase{Case: Case{Op: Op{Text: `{t{name req} ts{name}}`}, Yield: true, RegisterExt: true}, Name: "{t{name req} ts{name}} | extensions registered by every resolver", Bound: &two})
 	// a list whose elements have different concrete types, selecting the same response key
 	// through a shared occurrence and through type-specific fragments
 	add(`{peers{peer{id __typename x_id:id} ... on T{peer{... on T{name}}} ... on S{peer{... on S{title}}}}}`, planOf("peers[1]", "alt"))
